@@ -16,7 +16,7 @@ LEVEL = ("Generated-input exploration over feature/target widths (smaller, equal
          "competitor maps per case, and to recover planted (semi-)orthogonal maps exactly. "
          "No absence claim: strength = the counted distinct non-trivial cases in the evidence.")
 BUDGET = {"quick": 1200, "thorough": 50000}
-RULE = ("Cases: n in max(f,g)+2..24 samples (thorough 60), f and g in 1..6, X normal (optionally with column scales; a quarter of the cases uncentred: positive features and, unless planted, a strongly negative target offset), y either a noisy "
+RULE = ("Cases: n in max(f,g)+2..24 samples (thorough 60), f and g in 1..6, X normal (optionally with column scales; a quarter of the cases uncentred: positive features and, unless planted, a strongly negative target offset; a fifth of the remaining non-planted cases with one target that depends on X only at relative strength 1e-6), y either a noisy "
         "linear function of X or exactly X Q for a drawn (semi-)orthogonal Q; modes padded / projector; linear estimator default, "
         "LinearRegression(no intercept) or Ridge(alpha in {1e-10, 1, 50}); competitors: 8 random orthogonal matrices and 6 small "
         "rotations (1e-2, 1e-3) of the fitted solution.  Non-trivial: f != g or a planted orthogonal map; distinct = SHA-1 of the "
@@ -50,6 +50,10 @@ def strategy_(draw, tier):
         y = X @ gen.normal(draw, (f, g)) + draw(st.sampled_from([0.0, 0.3, 2.0])) * gen.normal(draw, (n, g))
         if offsets:
             y = y - y.mean(0) - 3.0 * (1.0 + np.abs(y).max())    # ... and a strongly negative target offset (the sign of the map matters)
+        elif min(f, g) >= 2 and draw(st.integers(0, 4)) == 0:
+            # a target that depends only very weakly on X: full-rank but ill-conditioned linear fit (sigma_min / sigma_max ~ 1e-6)
+            y = y.copy()
+            y[:, -1] = (X @ gen.normal(draw, (f,))) * draw(st.sampled_from([1e-6, 3e-7]))
     return {"X": X, "y": y, "planted": planted, "projector": draw(st.booleans()),
             "estimator": draw(st.sampled_from(["default", "lr_noint", "ridge", "ridge1", "ridge50"])), "offsets": offsets,
             "Xnew": gen.normal(draw, (5, f)) * draw(st.sampled_from([0.1, 1.0, 30.0])), "cseed": draw(gen.SEEDS),
